@@ -56,7 +56,7 @@ package minersc
 // Every rewarded sharder gets reward/n, the first reward%n of them one token more; together exactly
 // `reward`. (Loop invariant: paid so far + share * sharders still to pay + remainder left == reward,
 // and the remainder left never exceeds the number of sharders still to pay.)
-//@ ghost $sharderPaid Int
+//@ ghost $sharderPaid Int accumulator
 //@ func (*MinerSmartContract).payShardersAndDelegates
 //@   prop C22
 //@   at-call-inlined
@@ -76,7 +76,11 @@ package minersc
 //@ func (*MinerSmartContract).payFees
 //@   prop C22
 //@   requires msc != nil && t != nil && gn != nil
-//@   opaque DistributeRewardsRandN, payShardersAndDelegates, GetItemsByIDs, save, viewChangeDeleteNodes, setLastRound, Shuffle
+//@   opaque DistributeRewardsRandN, GetItemsByIDs, viewChangeDeleteNodes, setLastRound, Shuffle
+// once both sharder-side payments are made (and while the paid sharders are saved) the rewarded
+// sharders have been handed exactly the sharder side of the fees plus the sharder side of the reward
+//@   loop 1 header "for _, sh := range rewardSharders"
+//@   loop 1 invariant[sharder-side-paid-exactly] len(rewardSharders) > 0 ==> $sharderPaid == old($sharderPaid) + sharderFees + sharderRewards
 //@   at-call sumFee assert[only-the-generator] t.ClientID == b.MinerID
 //@   at-call sumFee assert[only-this-round] inputRound.Round == b.Round
 //@   at-call getRewardedMiner assert[split-is-exact] minerRewards + sharderRewards == blockReward && minerFees + sharderFees == fees
